@@ -324,6 +324,8 @@ type mech struct {
 	Code  int    `json:"code,omitempty"`
 	To    string `json:"to,omitempty"`
 	Fails bool   `json:"fails,omitempty"` // the `to` template fails at render time
+	Tmpl  bool   `json:"to_from_header,omitempty"` // `to` is {{ .Request.Header "X-Login-Url" }}; To = what it renders on this request
+	Login *string `json:"login_url_header,omitempty"` // the X-Login-Url request header (nil = absent)
 	Realm string `json:"realm,omitempty"`
 }
 
@@ -390,6 +392,22 @@ func gen(r *vf.Rand) c12Case {
 			m.To = vf.Pick(r, []string{"http://idp.example/login", "https://x.example/a?b=c", "/local"})
 			m.Fails = r.Chance(12)
 
+			// request dependent target that renders nothing / blanks / a URL
+			if !m.Fails && r.Chance(35) {
+				m.Tmpl = true
+
+				switch r.Intn(4) {
+				case 0:
+					m.To = ""
+				case 1:
+					v := vf.Pick(r, []string{"", " ", " \t"})
+					m.Login, m.To = &v, v
+				default:
+					v := "http://idp.example/from-header"
+					m.Login, m.To = &v, v
+				}
+			}
+
 			if r.Chance(60) {
 				m.Code = vf.Pick(r, redirectCodes)
 			}
@@ -440,6 +458,8 @@ func corpus() []c12Case {
 		{E: node{K: "w", Sub: []node{{K: "s", Kind: "authn"}}}, Sc: scenario{T: "panic", PanicErr: true}},
 		// panic with a non-error value, verbose
 		{R: stacks.Respond{Verbose: true, Internal: 503}, Accept: &any, E: authz, Sc: scenario{T: "panic"}},
+		// redirect target taken from a request header that is absent: an empty Location, still a redirect
+		{E: authz, Sc: scenario{T: "handled", M: &mech{T: "redirect", Tmpl: true}}},
 		// redirect template fails at render time
 		{E: authz, Sc: scenario{T: "handled", M: &mech{T: "redirect", To: "x", Fails: true}}},
 		// negative internal override: the recovery middleware panics itself
@@ -628,6 +648,10 @@ func mechanismFor(m *mech) errorhandlers.ErrorHandler {
 		eh, err = errorhandlers.CreatePrototype(nil, "eh", errorhandlers.ErrorHandlerDefault, nil)
 	case "redirect":
 		conf := map[string]any{"to": m.To}
+		if m.Tmpl {
+			conf["to"] = `{{ .Request.Header "X-Login-Url" }}`
+		}
+
 		if m.Fails {
 			conf["to"] = `{{ len .Request.NoSuchField }}`
 		}
@@ -707,15 +731,24 @@ func run(c c12Case) obs {
 	var rec [][2]string
 
 	exec := executorFor(c, err, &rec)
-	o.Decision = stacks.NewDecision(c.R, exec).Do(c.Accept)
+	hdrs := map[string]string{}
+	if c.Accept != nil {
+		hdrs["Accept"] = *c.Accept
+	}
+
+	if c.Sc.M != nil && c.Sc.M.Login != nil {
+		hdrs["X-Login-Url"] = *c.Sc.M.Login
+	}
+
+	o.Decision = stacks.NewDecision(c.R, exec).DoHeaders("/verif", hdrs)
 	o.Up = append([][2]string{}, rec...)
 	rec = nil
-	o.Proxy = stacks.NewProxy(c.R, exec).Do(c.Accept)
+	o.Proxy = stacks.NewProxy(c.R, exec).DoHeaders("/verif", hdrs)
 	same := fmt.Sprint(rec) == fmt.Sprint(o.Up)
 	rec = nil
 
 	env := stacks.NewEnvoy(c.R, exec)
-	o.Envoy = env.Do(c.Accept)
+	o.Envoy = env.DoHeaders("/verif", hdrs)
 	env.Close()
 
 	if !same || fmt.Sprint(rec) != fmt.Sprint(o.Up) {
